@@ -755,3 +755,169 @@ pub fn check_blocking(c: &BlockingCase, cx: &mut Cx) -> vcore::Res {
         Err(f) => cx.fail(f.sig, f.msg),
     }
 }
+
+// ---------------------------------------------------------------------------------------------------
+// C09: "the fallible and blocking send variants … hand it back to the caller when the timeout expires" --
+// also when the waiting sender is woken in between and finds the queue full again (a lost wake-up).
+//
+// This is the one place where wall-clock time is part of the property itself. The scenario is built so that
+// the two behaviours differ by seconds (give up at T versus at wake + T), the allowance is large against
+// scheduling noise, and an overrun is only reported after it repeated twice more with nothing else running.
+
+#[derive(Serialize, Deserialize, Debug, Clone)]
+pub struct DeadlineCase {
+    /// the blocking send's timeout
+    pub timeout_ms: u16,
+    /// when (in percent of the timeout) the receiver takes the queue -- and a callback refills it at once
+    pub wake_pct: u8,
+    pub tokio_entry: bool,
+}
+
+pub fn deadline_case() -> impl Strategy<Value = DeadlineCase> {
+    (2500u16..4000, 60u8..90, any::<bool>()).prop_map(|(timeout_ms, wake_pct, tokio_entry)| DeadlineCase { timeout_ms, wake_pct, tokio_entry })
+}
+
+const DEADLINE_SLACK: Duration = Duration::from_millis(1200);
+
+struct Permits {
+    n: Mutex<u32>,
+    cv: Condvar,
+    in_processor: AtomicUsize,
+}
+
+/// One run: Ok(Some(elapsed)) = the send handed the item back after `elapsed`; Ok(None) = it got in (no claim).
+fn run_deadline(c: &DeadlineCase) -> Result<Option<Duration>, Fail> {
+    let (sender, receiver) = emit_batcher::bounded::<Ch>(1);
+    let sender = Arc::new(sender);
+    let permits = Arc::new(Permits { n: Mutex::new(0), cv: Condvar::new(), in_processor: AtomicUsize::new(0) });
+    let recv = {
+        let permits = permits.clone();
+        emit_batcher::sync::spawn("verif-e7-deadline", receiver, move |_b: Ch| {
+            permits.in_processor.fetch_add(1, Ordering::SeqCst);
+            let mut n = permits.n.lock().unwrap();
+            while *n == 0 {
+                n = permits.cv.wait(n).unwrap();
+            }
+            *n -= 1;
+            Ok(())
+        })
+        .map_err(|e| Fail::new("harness/spawn", e.to_string()))?
+    };
+    // batch [1] is in the processor, [2] fills the queue
+    sender.send(1);
+    let t0 = Instant::now();
+    while permits.in_processor.load(Ordering::SeqCst) == 0 {
+        if t0.elapsed() > Duration::from_secs(20) {
+            return Err(Fail::new("harness/receiver-did-not-start", "the receiver never took the first item"));
+        }
+        std::thread::sleep(Duration::from_millis(1));
+    }
+    sender.send(2);
+    // registered BEFORE the blocking send, so it runs first when [2] is taken: the queue is full again by the time
+    // the waiting sender looks
+    {
+        let s = sender.clone();
+        sender.when_empty(move || {
+            let _ = s.try_send(3);
+        });
+    }
+    let timeout = Duration::from_millis(c.timeout_ms as u64);
+    let h = {
+        let (sender, tokio_entry) = (sender.clone(), c.tokio_entry);
+        std::thread::spawn(move || {
+            let t = Instant::now();
+            let r = if tokio_entry { emit_batcher::tokio::blocking_send(&sender, 4, timeout) } else { emit_batcher::sync::blocking_send(&sender, 4, timeout) };
+            (t.elapsed(), r.map_err(|e| e.into_retryable()))
+        })
+    };
+    std::thread::sleep(timeout * c.wake_pct as u32 / 100);
+    {
+        *permits.n.lock().unwrap() += 1;
+        permits.cv.notify_all();
+    }
+    let res = join_within(h, timeout * 3 + Duration::from_secs(10));
+    // let everything end
+    {
+        *permits.n.lock().unwrap() += 1_000;
+        permits.cv.notify_all();
+    }
+    let out = match res {
+        None => Err(Fail::new("C09/blocking-send-never-gave-up", format!("{c:?}: the call had not returned after three times its timeout + 10 s"))),
+        Some(Err(p)) => Err(Fail::new("C08/blocking-call-panicked/plain-thread", format!("{c:?}: the call panicked: {}", payload_msg(&p)))),
+        Some(Ok((_, Ok(())))) => Ok(None),
+        Some(Ok((elapsed, Err(got)))) => {
+            if got != Some(4) {
+                Err(Fail::new("C09/handed-back-item-differs", format!("{c:?}: blocking send failed and handed back {got:?}")))
+            } else {
+                Ok(Some(elapsed))
+            }
+        }
+    };
+    if let Ok(s) = Arc::try_unwrap(sender) {
+        drop(s);
+        let _ = join_within(recv, Duration::from_secs(30));
+    }
+    out
+}
+
+/// The cases of a batch sleep for seconds, so they run side by side; confirmations run one at a time.
+pub fn deadline_batch() -> impl Strategy<Value = Vec<DeadlineCase>> {
+    prop::collection::vec(deadline_case(), 16..=16)
+}
+
+pub fn check_deadline(batch: &Vec<DeadlineCase>, cx: &mut Cx) -> vcore::Res {
+    static CONFIRM: Mutex<()> = Mutex::new(());
+    // every evaluation costs seconds (a failing one three times over): once a failure was found in this process
+    // shrink candidates are reported as passing, so the batch that failed is kept as it is
+    static FAILED: AtomicBool = AtomicBool::new(false);
+    if cx.replaying && FAILED.load(Ordering::SeqCst) {
+        return Ok(());
+    }
+    cx.nontrivial(true);
+    let firsts: Vec<Result<Option<Duration>, Fail>> = std::thread::scope(|sc| {
+        let hs: Vec<_> = batch.iter().map(|c| sc.spawn(move || run_deadline(c))).collect();
+        hs.into_iter().map(|h| h.join().unwrap_or_else(|_| Err(Fail::new("harness/deadline-thread-panicked", "the scenario thread panicked")))).collect()
+    });
+    for (c, first) in batch.iter().zip(firsts) {
+        cx.class("deadline:blocking-send-woken-and-refilled");
+        let timeout = Duration::from_millis(c.timeout_ms as u64);
+        let first = match first {
+            Ok(v) => v,
+            Err(f) => return cx.fail(f.sig, f.msg),
+        };
+        let Some(elapsed) = first else {
+            cx.class("dontcare:blocking-send-got-in");
+            cx.dont_care();
+            continue;
+        };
+        if elapsed <= timeout + DEADLINE_SLACK {
+            cx.class("deadline:handed-back-on-time");
+            continue;
+        }
+        // an overrun: only believed if it repeats with nothing else of this kind running
+        let _alone = CONFIRM.lock().unwrap();
+        let mut seen = vec![elapsed];
+        let mut repeated = true;
+        for _ in 0..2 {
+            match run_deadline(c) {
+                Ok(Some(e)) if e > timeout + DEADLINE_SLACK => seen.push(e),
+                Ok(_) => {
+                    repeated = false;
+                    break;
+                }
+                Err(f) => return cx.fail(f.sig, f.msg),
+            }
+        }
+        if !repeated {
+            cx.class("dontcare:deadline-overrun-did-not-repeat");
+            cx.dont_care();
+            continue;
+        }
+        FAILED.store(true, Ordering::SeqCst);
+        cx.fail(
+            "C09/blocking-send-overran-its-timeout",
+            format!("{c:?}: a blocking send that was woken at {} % of its timeout and found the queue full again handed the item back after {seen:?} (three runs) although its timeout is {timeout:?}", c.wake_pct),
+        )?;
+    }
+    Ok(())
+}
